@@ -381,6 +381,11 @@ exit:
 	return set
 }
 
+// maxCaptures is LUA_MAXCAPTURES of lstrlib. It also bounds the recursion of
+// parsePattern (one level per open capture): a pattern of a million '(' would
+// otherwise overflow the Go stack, which cannot be recovered from.
+const maxCaptures = 32
+
 func parsePattern(sc *scanner, toplevel bool) *seqPattern {
 	pat := &seqPattern{}
 	if toplevel {
@@ -423,6 +428,9 @@ func parsePattern(sc *scanner, toplevel bool) *seqPattern {
 			return pat
 		case '(':
 			sc.Next()
+			if len(sc.closedCaptures) >= maxCaptures {
+				panic(newError(sc.CurrentPos(), "too many captures"))
+			}
 			if sc.Peek() == ')' {
 				sc.Next()
 				sc.closedCaptures = append(sc.closedCaptures, true)
